@@ -299,7 +299,47 @@ def regen_facts(out, with_lock):
 SYNTAX_ERR = ['a(', '[a', 'a{2,1}', '*a', '\\', '(?=a)', 'a{,3}', '[z-a]', '\\8', 'a)']
 UNSUPPORTED = ['^a', 'a$', '\\bfoo', '(?i)a', 'a*?', '\\p{Greek}', '\\A', '(?s).']
 KINDS = ['token_type', 'pattern_order', 'la_presence', 'la_polarity', 'la_pattern', 'transition',
-         'mode_name', 'pattern_text', 'mode_order', 'mode_count']
+         'mode_name', 'pattern_text', 'mode_order', 'mode_count', 'mode_twin']
+FILLER = ['a', 'b', 'x', '\u00e9', '\u20ac', '\U0001F600', '\u00df', '\u4e2d']
+
+
+def long_bad(rng, bad):
+    """an unsupported/ill-formed pattern made long by literal filler (multi-byte characters at every
+    byte alignment): the error paths (message formatting under the cache lock) see long texts"""
+    n = rng.randint(1, 70)
+    fill = ''.join(rng.choice(FILLER) for _ in range(n))
+    return fill + bad if (rng.random() < 0.6 and not bad.startswith('*')) else bad + fill
+
+
+def add_twin_mode(rng, c):
+    """appends a mode with the same (pattern, token type) list as an existing one that differs in ONE
+    lookahead (presence, polarity or pattern), in the transitions, or only in the name"""
+    m = clone(rng.choice(c))
+    m['name'] = m['name'] + 'T'
+    how = rng.choice(['la_presence', 'la_polarity', 'la_pattern', 'transitions', 'name'])
+    las = [p for p in m['patterns'] if p.get('la')]
+    if how == 'la_presence' or (how in ('la_polarity', 'la_pattern') and not las):
+        p = rng.choice(m['patterns'])
+        if p.get('la'):
+            del p['la']
+        else:
+            p['la'] = {'pos': rng.random() < 0.5, 'p': gen.gen_small_la(rng)}
+    elif how == 'la_polarity':
+        p = rng.choice(las)
+        p['la']['pos'] = not p['la']['pos']
+    elif how == 'la_pattern':
+        p = rng.choice(las)
+        p['la']['p'] = p['la']['p'] + rng.choice(['a', 'b', '+', 'c?'])
+    elif how == 'transitions':
+        m['transitions'] = []
+    c.append(m)
+    # make the twin reachable
+    src = rng.choice(c[:-1])
+    used = set(t for t, _ in src['transitions'])
+    cand = [p['t'] for p in src['patterns'] if p['t'] not in used]
+    if cand:
+        src['transitions'].append([rng.choice(cand), len(c) - 1])
+        src['transitions'].sort()
 
 
 def clone(x):
@@ -329,6 +369,8 @@ def gen_base(rng):
     gen.add_transitions(rng, modes)
     if not m0['transitions']:
         m0['transitions'] = [[m0['patterns'][0]['t'], rng.randrange(nm)]]
+    if rng.random() < 0.3:
+        add_twin_mode(rng, modes)
     return modes
 
 
@@ -399,6 +441,8 @@ def one_field_variant(rng, cfg, kind):
             return None
         i, j = rng.sample(range(len(c)), 2)
         c[i], c[j] = c[j], c[i]
+    elif kind == 'mode_twin':
+        add_twin_mode(rng, c)
     elif kind == 'mode_count':
         if len(c) >= 2 and rng.random() < 0.4:
             c.pop()
@@ -416,6 +460,8 @@ def failing_variant(rng, cfg):
     or unsupported one, or a bad extra mode after the (good) modes of cfg."""
     c = clone(cfg)
     bad = rng.choice(SYNTAX_ERR + UNSUPPORTED)
+    if rng.random() < 0.35:
+        bad = long_bad(rng, bad)
     kind = rng.choice(['bad_pattern', 'bad_lookahead', 'bad_extra_mode', 'bad_extra_mode', 'bad_first_mode'])
     if kind == 'bad_pattern':
         rng.choice(rng.choice(c)['patterns'])['p'] = bad
